@@ -116,7 +116,7 @@ def run_property(mod, tier, seed, replay=None):
         print("VIOLATION property=%s replay=%s no-failing-input-found" % (prop, rp))
         write_evidence(prop, tier, seed, time.time() - t0,
                        {"obligations": coq["obligations"], "discharged": coq["discharged"],
-                        "checker_cmd": "make -C coq theories/Props/%s.vo" % mod.PROPS,
+                        "checker_cmd": "make -C coq theories/Props/%s.vo" % (mod.PROPS if isinstance(mod.PROPS, str) else ",".join(mod.PROPS)),
                         "trusted_base": TRUSTED_BASE, "evaluations": 0, "distinct_nontrivial": 0,
                         "rule": "harness build failed", "samples": []}, 1, [])
         return 1
@@ -240,7 +240,7 @@ def run_property(mod, tier, seed, replay=None):
     coverage = {
         "obligations": coq["obligations"],
         "discharged": coq["discharged"],
-        "checker_cmd": "make -C coq theories/Props/%s.vo  (full .vo build; Print Assumptions audited; forbidden-construct grep)" % mod.PROPS,
+        "checker_cmd": "make -C coq theories/Props/%s.vo  (full .vo build; Print Assumptions audited; forbidden-construct grep)" % (mod.PROPS if isinstance(mod.PROPS, str) else ",".join(mod.PROPS)),
         "trusted_base": TRUSTED_BASE,
         "theorems": coq["theorems"],
         "evaluations": len(lines),
